@@ -7,4 +7,17 @@ func init() {
 		NotDecided:  "The Go memory model, races inside dependencies, caller-supplied registries, equality of concurrent and sequential outcomes beyond independence of shared state.",
 		Assumptions: []string{"lock held at both accesses implies no data race (Go memory model)", "dependencies are trusted"},
 	}
+	Properties["C15"] = PropSpec{
+		Rules:       []Rule{Cow},
+		Explanation: "Static analysis of the whole pattern-cache mechanism on SSA: published snapshots are never written (no MapUpdate/delete on a value derived from the cache load, anywhere in the package); publication happens only in one function, with the mutex in the must-held lockset, after re-loading the snapshot inside the critical section, into a freshly made map that receives every old entry and new entries keyed by String() of the inserted expression; lookups use the requested pattern as key; the miss path compiles exactly the pattern parameter, returns/caches that very value, and returns the compile error unchanged with nothing cached; regexp.Compile/MustCompile/Match* occur nowhere else; the Must variant is only called with constants that the checker itself parses; every call site uses the expression only where the error is known nil.",
+		NotDecided:  "The regexp package itself (matching semantics), and sync/atomic.",
+		Assumptions: []string{"regexp.Regexp.String() returns the source text used to compile (regexp documentation)", "sync.Mutex and atomic.Value are correct"},
+	}
+	Properties["C04"] = PropSpec{
+		Rules:          []Rule{PoolCtor},
+		DebugConfigToo: true,
+		Explanation:    "(being extended) POOL-CTOR: every field of a borrowed validator is assigned on every path before the object is returned, no field is read (directly or through a method of the half-built object) before it is assigned; a recycled Result is reset field by field by the clearing function the borrow applies; scratch schemas are overwritten as a whole before any use.",
+		NotDecided:     "Agreement of outcomes with a fresh process (behavioural); aliasing carried through dependencies.",
+		Assumptions:    []string{"a recycling validator is used once (documented contract)"},
+	}
 }
